@@ -232,6 +232,14 @@ Fixpoint lower (s : string) : string :=
   | String c s' => let n := nat_of_ascii c in
                    String (if Nat.leb 65 n && Nat.leb n 90 then ascii_of_nat (n + 32) else c) (lower s')
   end.
+(* the comparator of hash(): by String(v), ties ("1" and 1) broken by typeof, so that the order the values were given in is
+   invisible (since the fix of the member-order dependence of hash()) *)
+Definition cst_typeof (c : cst) : string :=
+  match c with CNull => "object" | CBool _ => "boolean" | CNum _ => "number" | CStr _ => "string" end.
+Definition cst_sort_leb (a b : cst) : bool :=
+  let x := cst_to_string a in
+  let y := cst_to_string b in
+  if String.eqb x y then str_leb (cst_typeof a) (cst_typeof b) else str_leb x y.
 
 Section Hash32.
   Variable env : renv.
@@ -256,7 +264,7 @@ Section Hash32.
       | RNumberFmt fs => Ok (hash_numbers (seed "numberWithFormat" :: map hash_string (sort_strings fs)))
       | RAnyOfConsts cs =>
           Ok (hash_numbers (seed "anyOfConsts"
-                            :: map cst_hash (sort_by (fun a b => str_leb (cst_to_string a) (cst_to_string b)) cs)))
+                            :: map cst_hash (sort_by cst_sort_leb cs)))
       | RTuple prefix rest =>
           do ps <- all prefix;
           do rr <- match rest with Some x => hash32 f seen x | None => Ok 0%Z end;
